@@ -23,7 +23,8 @@ type cs struct {
 	Lua       bool   `json:"lua"`
 	Range     string `json:"range"`
 	Open      string `json:"open"`
-	Cors      bool   `json:"cors"` // the unprotected path that shares the backend enables CORS
+	Cors      bool   `json:"cors"`    // the unprotected path that shares the backend enables CORS
+	PubAuth   bool   `json:"pubauth"` // the other path of the backend declares an auth-url of its own (and so is protected too)
 }
 
 type rule struct {
@@ -102,6 +103,9 @@ func runCase(base string, i int, c cs) (rec, error) {
 	if c.Cors {
 		pubann["cors-enable"] = "true"
 	}
+	if c.PubAuth {
+		pubann["auth-url"] = urls["http_ok"]
+	}
 	p.Apply(kobj.Ingress("d", "pub", 2, pubann, nil,
 		[]kobj.Rule{{Host: "a.local", Paths: []kobj.Path{{Path: pub, Svc: "app", Port: "8080"}}}}, nil, nil))
 	if _, err := p.ReconcilePending(false); err != nil {
@@ -110,7 +114,7 @@ func runCase(base string, i int, c cs) (rec, error) {
 	protected := c.URL != "none" || c.OAuth != "none"
 	r.Rules = []rule{
 		{ID: "app", P: cfgnf.Chars("/app"), Ty: c.PType, Protected: protected},
-		{ID: "pub", P: cfgnf.Chars(pub), Ty: "begin", Protected: false},
+		{ID: "pub", P: cfgnf.Chars(pub), Ty: "begin", Protected: c.PubAuth},
 	}
 	for _, q := range []string{"/app", "/app/x", "/appx", "/App", pub, pub + "/x", "/other"} {
 		r.Reqs = append(r.Reqs, cfgnf.Chars(q))
